@@ -49,6 +49,10 @@ pub enum Req {
     Unknown(String),
     DidChange(UriKind, String),
     DidSave(UriKind, Option<String>),
+    /// a notification the server cannot use: 0 didSave without params, 1 didChange with an empty
+    /// change list, 2 didChange whose params are a string, 3 $/cancelRequest, 4 an unknown
+    /// notification, 5 didOpen, 6 didClose
+    OddNotification(u8),
 }
 
 #[derive(Clone, Debug, Serialize, Deserialize)]
@@ -140,6 +144,7 @@ fn req(features: &Features) -> BoxedStrategy<Req> {
         (2, (uri_kind(), small_text()).prop_map(|(u, t)| Req::DidChange(u, t)).boxed()),
         (1, (uri_kind(), proptest::option::of(small_text())).prop_map(|(u, t)| Req::DidSave(u, t)).boxed()),
     ];
+    opts.push((1, (0u8..7).prop_map(Req::OddNotification).boxed()));
     if exec {
         opts.push((1, (0u8..4).prop_map(Req::ExecuteCommand).boxed()));
     }
@@ -287,6 +292,35 @@ impl Property for C12 {
                 Req::DidChange(u, t) => {
                     let uri = resolve_uri(u, &keys);
                     srv.notify("textDocument/didChange", json!({"textDocument": {"uri": uri, "version": 2}, "contentChanges": [{"text": t}]}));
+                    continue;
+                }
+                Req::OddNotification(v) => {
+                    let uri = lsp::uri_of(&keys[0]);
+                    let (m, p) = match v {
+                        0 => ("textDocument/didSave", json!({})),
+                        1 => ("textDocument/didChange", json!({"textDocument": {"uri": uri, "version": 3}, "contentChanges": []})),
+                        2 => ("textDocument/didChange", json!("not an object")),
+                        3 => ("$/cancelRequest", json!({"id": 1})),
+                        4 => ("workspace/didChangeConfiguration", json!({"settings": {}})),
+                        5 => ("textDocument/didOpen", json!({"textDocument": {"uri": uri, "languageId": "markdown", "version": 1, "text": "# opened\n"}})),
+                        _ => ("textDocument/didClose", json!({"textDocument": {"uri": uri}})),
+                    };
+                    stats.class(&format!("odd-notification:{}", v));
+                    srv.notify(m, p);
+                    saw_unknown = true;
+                    // the server must still be there afterwards
+                    let p = srv.workspace_symbols("");
+                    if !p.responded() {
+                        if let Some(rec) = srv.loop_death() {
+                            verdict = Some(Verdict::fail(rec.signature(), format!("the server loop died after notification {}: panic at {}: {}\nsequence: {:?}", m, rec.file, rec.message, case.reqs)));
+                        } else {
+                            verdict = Some(Verdict::fail(
+                                format!("c12|probe-dead-after|{}", m),
+                                format!("liveness probe after notification #{} {} was not answered: {:?}\nsequence: {:?}", n, m, p, case.reqs),
+                            ));
+                        }
+                        break;
+                    }
                     continue;
                 }
                 Req::DidSave(u, t) => {
